@@ -706,21 +706,36 @@ def shutdown_resets(fn):
     object fails silently.  -> [(global, line of the release)] for releases not followed by the reset"""
     bad = []
     rels = []
+
+    def glob_of(e):
+        """(global designated, reached through a value copy?) - `G`, `tmp` with `tmp = G`, `*slot` with `slot = &G`"""
+        e = strip_casts(e)
+        if e is None:
+            return None, False
+        if e["k"] == "ref" and e.get("decl") == "global":
+            return e["name"], False
+        if e["k"] == "ref" and e.get("decl") in ("local", "param"):
+            r = strip_casts(fn.resolve(e))
+            if r is not None and r["k"] == "ref" and r.get("decl") == "global":
+                return r["name"], True
+        if e["k"] == "un" and e.get("op") == "*":
+            p_ = strip_casts(e["e"])
+            if p_ is not None and p_["k"] == "ref":
+                r = strip_casts(fn.resolve(p_)) if p_.get("decl") != "global" else None
+                if r is not None and r["k"] == "un" and r.get("op") == "&":
+                    g_ = strip_casts(r["e"])
+                    if g_ is not None and g_["k"] == "ref" and g_.get("decl") == "global":
+                        return g_["name"], False
+        return None, False
     for (b, i, c) in fn.calls():
         cn = c.get("callee") or ""
         if cn.endswith("_free") and c.get("args"):
-            a = strip_casts(c["args"][0])
-            copied = False
-            if a is not None and a["k"] == "ref" and a.get("decl") == "local":
-                # `tmp = G; G = NULL; X_free (tmp);` - the object of the global released through a local copy taken before the reset
-                r = strip_casts(fn.resolve(a))
-                if r is not None and r["k"] == "ref" and r.get("decl") == "global":
-                    a, copied = r, True
-            if a is not None and a["k"] == "ref" and a.get("decl") == "global":
-                rels.append((b, i, c, a["name"], copied))
+            g, copied = glob_of(c["args"][0])
+            if g is not None:
+                rels.append((b, i, c, g, copied))
     for (b, i, c, g, copied) in rels:
-        resets = [(b2, i2) for (b2, i2, n) in fn.nodes(elsewhere=True) if n["k"] == "asg" and n.get("op") == "=" and strip_casts(n["l"])["k"] == "ref"
-                  and strip_casts(n["l"])["name"] == g and cv(n["r"]) == 0]
+        resets = [(b2, i2) for (b2, i2, n) in fn.nodes(elsewhere=True) if n["k"] == "asg" and n.get("op") == "=" and cv(n["r"]) == 0
+                  and glob_of(n["l"]) == (g, False)]
         if not any(fn.postdominates(b2.id, b.id) or (b2.id == b.id and i2 > i) or (copied and fn.pos_dominates((b2.id, i2), (b.id, i))) for (b2, i2) in resets):
             bad.append((g, line(c)))
     return len(rels), bad
